@@ -125,7 +125,7 @@ func runC15Wmpt(ops []string) CaseResult {
 		case "dnode":
 			data := unhx(f[1])
 			if d := descNodeBytes(data); d != f[2] {
-				res.Fails = append(res.Fails, fmt.Sprintf("harness: op %d carries description %q, the CBOR library now yields %q", i, clip(f[2], 80), clip(d, 80)))
+				res.Fails = append(res.Fails, fmt.Sprintf("harness: op %d carries description %q, the CBOR library now yields %q", i, wmClip(f[2], 80), wmClip(d, 80)))
 			}
 			out = timed(i, &res, "DeserializeNode", func() string {
 				n, err := wmpt.DeserializeNode(append([]byte(nil), data...))
@@ -141,7 +141,7 @@ func runC15Wmpt(ops []string) CaseResult {
 		case "vproof":
 			data := unhx(f[2])
 			if d := descTrieBytes(data); d != f[3] {
-				res.Fails = append(res.Fails, fmt.Sprintf("harness: op %d carries description %q, the CBOR library now yields %q", i, clip(f[3], 80), clip(d, 80)))
+				res.Fails = append(res.Fails, fmt.Sprintf("harness: op %d carries description %q, the CBOR library now yields %q", i, wmClip(f[3], 80), wmClip(d, 80)))
 			}
 			out = timed(i, &res, "VerifyBlockProof", func() string {
 				h, v, err := wmpt.New(nil, nil).VerifyBlockProof(u64(f[1]), append([]byte(nil), data...))
@@ -153,7 +153,7 @@ func runC15Wmpt(ops []string) CaseResult {
 		case "dtrie":
 			data := unhx(f[1])
 			if d := descTrieBytes(data); d != f[2] {
-				res.Fails = append(res.Fails, fmt.Sprintf("harness: op %d carries description %q, the CBOR library now yields %q", i, clip(f[2], 80), clip(d, 80)))
+				res.Fails = append(res.Fails, fmt.Sprintf("harness: op %d carries description %q, the CBOR library now yields %q", i, wmClip(f[2], 80), wmClip(d, 80)))
 			}
 			out = timed(i, &res, "Deserialize", func() string {
 				t := wmpt.New(nil, nil)
